@@ -89,8 +89,8 @@ func picks(cs []Choice, n int) []int {
 	return p
 }
 
-func (e *explorer) run(prefix []int) *Exec {
-	x := RunOnce(e.body, RunOptions{Prefix: prefix, MaxSteps: e.o.MaxSteps, Bound: e.bound, Cache: e.cache})
+func (e *explorer) run(prefix []int, sigs []uint32) *Exec {
+	x := RunOnce(e.body, RunOptions{Trace: debugTrace, Prefix: prefix, PrefixSigs: sigs, MaxSteps: e.o.MaxSteps, Bound: e.bound, Cache: e.cache})
 	e.res.Executions++
 	e.res.Steps += int64(x.Steps)
 	e.res.States += int64(x.Keys)
@@ -199,11 +199,31 @@ func (e *explorer) capped() bool {
 
 // explore runs prefix and recursively every alternative within the bound. depth: number of
 // ancestors (0 = root). mine: whether this execution is counted by this shard.
-func (e *explorer) explore(prefix []int, spent int, depth int, mine bool) {
+var debugTrace = os.Getenv("VSCHED_DEBUG") != ""
+
+func (e *explorer) explore(prefix []int, sigs []uint32, spent int, depth int, mine bool, parent *Exec) {
 	if e.capped() {
 		return
 	}
-	x := e.run(prefix)
+	x := e.run(prefix, sigs)
+	if debugTrace && x.Diverged != "" && parent != nil {
+		for j := 0; j < len(parent.Trace) || j < len(x.Trace); j++ {
+			a, b := "<end>", "<end>"
+			if j < len(parent.Trace) {
+				a = parent.Trace[j]
+			}
+			if j < len(x.Trace) {
+				b = x.Trace[j]
+			}
+			if a != b {
+				for k := max(0, j-8); k < j; k++ {
+					fmt.Fprintf(os.Stderr, "   same[%d] %s\n", k, x.Trace[k])
+				}
+				fmt.Fprintf(os.Stderr, " parent[%d] %s\n  child[%d] %s\n prefix=%v\n", j, a, j, b, prefix)
+				break
+			}
+		}
+	}
 	if mine {
 		e.record(x, true)
 	} else if x.Diverged != "" {
@@ -232,7 +252,11 @@ func (e *explorer) explore(prefix []int, spent int, depth int, mine bool) {
 				np[j] = x.Choices[j].Pick
 			}
 			np[i] = alt
-			e.explore(np, cost, depth+1, childMine)
+			ns := make([]uint32, i+1)
+			for j := 0; j <= i; j++ {
+				ns[j] = x.Choices[j].Sig
+			}
+			e.explore(np, ns, cost, depth+1, childMine, x)
 			if e.stop {
 				return
 			}
@@ -262,7 +286,7 @@ func Explore(harness, variant string, body func(), o Options) *Result {
 			// earlier bounds are re-explored; reset the counters that would double count
 			res.DevHistogram = map[string]int{}
 		}
-		e.explore(nil, 0, 0, o.ShardK == 0)
+		e.explore(nil, nil, 0, 0, o.ShardK == 0, nil)
 		if e.stop {
 			break
 		}
